@@ -943,6 +943,51 @@ Example concurrent_scan_ex :
   h_valid (fst (cscan src_iter [m; t] steps)) = false.
 Proof. vm_compute. split; reflexivity. Qed.
 
+
+(* the interleaving of concurrent_scan_ex is legal for the keys nobody writes: the hypothesis
+   of eng_concurrent_scan / conc_scan is satisfiable with real writer steps *)
+Example concurrent_legal_ex :
+  let m := mkSrc KMem [([1], Some [10]); ([3], Some [30]); ([5], Some [50])] [] in
+  let t := mkSrc KSst [([2], Some [20]); ([4], Some [40])] [] in
+  let W := fun k => In k [[1]; [2]; [3]; [4]; [5]] in
+  let h0 := hier_first src_iter (hier_new [m; t]) in
+  let h1 := fst (hier_next src_iter h0) in
+  let m1 := match h_srcs h1 with a :: _ => a | [] => m end in
+  let t1 := match h_srcs h1 with _ :: b :: _ => b | _ => t end in
+  let m2 := src_write 0 ([0], Some [0]) m1 in
+  let m3 := src_write 3 ([4; 4], Some [44]) m2 in
+  legal src_iter src_ok s_cur W h0
+        [CNext; CWrite [0] [m2; t1]; CWrite [4; 4] [m3; t1]; CNext; CNext; CNext; CNext; CNext; CNext].
+Proof.
+  intros m t W h0 h1 m1 t1 m2 m3. cbn [legal].
+  change (fst (hier_next src_iter h0)) with h1.
+  assert (Hm1 : m1 = mkSrc KMem [([1], Some [10]); ([3], Some [30]); ([5], Some [50])] [([3], Some [30]); ([5], Some [50])]) by (vm_compute; reflexivity).
+  assert (Ht1 : t1 = mkSrc KSst [([2], Some [20]); ([4], Some [40])] [([2], Some [20]); ([4], Some [40])]) by (vm_compute; reflexivity).
+  assert (Hh1 : h_srcs h1 = [m1; t1]) by (vm_compute; reflexivity).
+  assert (Okm1 : src_ok m1).
+  { rewrite Hm1. unfold src_ok. cbn [s_all s_kind s_cur]. split; [|split; [left; reflexivity|exists [([1], Some [10])]; reflexivity]].
+    repeat (constructor; [|repeat (constructor; try (vm_compute; reflexivity))]); constructor. }
+  assert (Okt1 : src_ok t1).
+  { rewrite Ht1. unfold src_ok. cbn [s_all s_kind s_cur]. split; [|split; [right|exists []; reflexivity]].
+    - repeat (constructor; [|repeat (constructor; try (vm_compute; reflexivity))]); constructor.
+    - repeat (constructor; [|repeat (constructor; try (vm_compute; reflexivity))]); constructor. }
+  destruct (src_write_step 0 ([0], Some [0]) m1 Okm1 ltac:(rewrite Hm1; reflexivity)) as (Okm2 & Cm2 & _).
+  { rewrite Hm1. cbn [s_all ins_at]. repeat (constructor; [|repeat (constructor; try (vm_compute; reflexivity))]); constructor. }
+  fold m2 in Okm2, Cm2.
+  destruct (src_write_step 3 ([4; 4], Some [44]) m2 Okm2 ltac:(unfold m2; rewrite Hm1; reflexivity)) as (Okm3 & Cm3 & _).
+  { unfold m2. rewrite Hm1. cbn. repeat (constructor; [|repeat (constructor; try (vm_compute; reflexivity))]); constructor. }
+  fold m3 in Okm3, Cm3.
+  split; [|split; [|split]].
+  - unfold W. cbn [In]. intros [E|[E|[E|[E|[E|[]]]]]]; discriminate.
+  - constructor; [exact Okm2|constructor; [exact Okt1|constructor]].
+  - unfold set_srcs. rewrite Hh1. constructor; [exact Cm2|]. constructor; [|constructor]. intros; reflexivity.
+  - cbn [set_srcs h_srcs]. split; [|split; [|split]].
+    + unfold W. cbn [In]. intros [E|[E|[E|[E|[E|[]]]]]]; discriminate.
+    + constructor; [exact Okm3|constructor; [exact Okt1|constructor]].
+    + constructor; [exact Cm3|]. constructor; [|constructor]. intros; reflexivity.
+    + exact I.
+Qed.
+
 (* ------------------------------------------------------------------------------------ *)
 (* Part J: Seek of the range iterator, with the repaired BoundedIterator.Seek              *)
 (* ------------------------------------------------------------------------------------ *)
